@@ -261,8 +261,7 @@ def check_slices(templates, rng, rec, case, tag):
             continue
         # a table joined with a copy of itself: the rows twice, marks too
         sizes = {int(np.size(c)) for c in tab.columns}
-        if len(sizes) == 1 and 2 <= next(iter(sizes)) <= 40 and all(
-                np.ndim(c) <= 1 for c in tab.columns):
+        if len(sizes) == 1 and 2 <= next(iter(sizes)) <= 40:
             full, aligned = expected_rows(tab)
             if aligned:
                 try:
